@@ -8,6 +8,8 @@ from pyvc.apply import apply_to_params
 from pyvc.state import Mk
 
 OPCK = 'functions.<OPC>'      # what dispatch assumes (the weak common contract)
+DISPATCHK = 'functions.<DISPATCH>'
+_LABELS_OK = {}
 PLUGINK = 'functions.<PLUGIN>'
 
 
@@ -40,7 +42,34 @@ def dispatch(ip, en, args, kwargs):
     ip.ctx.ghost.setdefault('dispatch_entries', set()).update(ip.src.key_of(fn) for fn in en.table.values())
     if len(args) != 3 or kwargs:
         raise Unsupported('dispatch call shape')
-    return apply_to_params(ip, reg.get(OPCK), {'tape': args[0], 'stack': args[1], 'cache': args[2]})
+    params = {'tape': args[0], 'stack': args[1], 'cache': args[2]}
+    _check_requires_covered(ip, reg, en, params)
+    return apply_to_params(ip, reg.get(DISPATCHK), params)
+
+
+def _check_requires_covered(ip, reg, en, params):
+    """every clause (by label) of every table entry's precondition is a clause of <DISPATCH>.requires"""
+    from pyvc.apply import all_clauses
+    keys = sorted({ip.src.key_of(fn) for fn in en.table.values()})
+    sig = tuple(keys)
+    if _LABELS_OK.get(sig):
+        return
+    from pyvc.heap import snapshot
+    ip.ctx.solver.push()
+    saved = (len(ip.ctx.pc), len(ip.ctx.obls), len(ip.ctx.taken))
+    try:
+        have = {l for l, _ in all_clauses(ip, reg.get(DISPATCHK), 'requires', snapshot(dict(params)))}
+        for k in keys:
+            need = {l.split(':')[-1] for l, _ in all_clauses(ip, reg.get(k), 'requires', snapshot(dict(params)))}
+            extra = {l for l in need if l not in {h.split(':')[-1] for h in have}}
+            if extra:
+                raise Unsupported(f'precondition clauses {sorted(extra)} of {k} are not established by dispatch')
+    finally:
+        ip.ctx.solver.pop()
+        del ip.ctx.pc[saved[0]:]
+        del ip.ctx.obls[saved[1]:]
+        del ip.ctx.taken[saved[2]:]
+    _LABELS_OK[sig] = True
 
 
 def opaque_call(ip, fn, args, kwargs, method):
